@@ -10,7 +10,7 @@ from fractions import Fraction
 import numpy as np
 
 from .common import *  # noqa
-from .common import z3, V, shims, Harness, run_check, SymReal, SymInt, SymBool, AND, OR, NOT, EQ, IMPLIES, COMMON_ASSUMPTIONS, Unsupported, PathAbort
+from .common import z3, V, shims, Harness, run_check, SymReal, SymInt, SymBool, AND, OR, NOT, EQ, IMPLIES, COMMON_ASSUMPTIONS, Unsupported, PathAbort, EQ_RATIONAL
 
 import rpylib.product.product as PROD
 import rpylib.product.payoff as PAY
@@ -210,6 +210,51 @@ def h_asian(ctx, n):
     ctx.prove("C17.average_between_path_extremes", AND(v >= lo, v <= hi), info={"n": n}, replay=rp)
 
 
+def replay_asian_column(sc):
+    t = np.array(sc["t"], dtype=float)
+    p = np.array(sc["p"], dtype=float).reshape(-1, 1)
+    try:
+        v = float(np.ravel(UND.Asian().value(t, p, p))[0])
+    except Exception as e:
+        return True, f"Asian().value(times={t.tolist()}, column path={p.ravel().tolist()}) raises {type(e).__name__}: {e}"
+    used = p.ravel() if t[0] > 0 else p.ravel()[1:]
+    lo, hi = float(used.min()), float(used.max())
+    want = float(sum(p.ravel()[i] * (t[i] - (t[i - 1] if i else 0.0)) for i in range(len(t))) / t[-1])
+    bad = not (lo - 1e-12 <= v <= hi + 1e-12) or abs(v - want) > 1e-12 * max(1.0, abs(want))
+    return bad, f"Asian().value(times={t.tolist()}, column path={p.ravel().tolist()}) = {v!r}; time-weighted average {want!r}, extremes [{lo}, {hi}]"
+
+
+def h_asian_column(ctx, n, offset):
+    """the configuration in which Asian.value works (column path of shape (n, 1)): time-weighted average with the first observation
+    weighted by its distance to 0; with `offset` the first date is after 0 (TimeGrid allows start > 0)"""
+    path = sym_path(ctx, n).reshape(n, 1)
+    times = np.empty(n, dtype=object)
+    prev = None
+    for i in range(n):
+        if i == 0 and not offset:
+            times[i] = 0.0
+        else:
+            times[i] = ctx.real(f"t{i}")
+            ctx.assume(times[i] > (prev if prev is not None else 0.0))
+        prev = times[i]
+    rp = (replay_asian_column, lambda m: {"t": _vals(m, times), "p": _vals(m, path.reshape(-1))})
+    info = {"n": n, "first_date_after_zero": offset}
+    try:
+        v = UND.Asian().value(times, path, path)
+    except (TypeError, IndexError, ValueError) as e:
+        ctx.prove("C17.average_of_a_column_path_is_defined", False, info=dict(info, raised=repr(e)[:120]), replay=rp)
+        return
+    v = np.ravel(v)[0] if isinstance(v, np.ndarray) else v
+    vals = [path[i, 0] for i in range(n)]
+    used = vals if offset else vals[1:]
+    lo, hi = used[0], used[0]
+    for x in used[1:]:
+        lo, hi = V.smin(lo, x), V.smax(hi, x)
+    ctx.prove("C17.average_between_path_extremes", AND(v >= lo, v <= hi), info=info, replay=rp)
+    want = sum(vals[i] * (times[i] - (times[i - 1] if i else 0.0)) for i in range(n)) / times[n - 1]
+    ctx.prove("C17.average_is_the_time_weighted_mean_of_the_observations", EQ_RATIONAL(v, want), info=info, replay=rp)
+
+
 def h_default_time(ctx, n):
     times = sym_times(ctx, n)
     jp = np.empty(n, dtype=object)
@@ -261,6 +306,8 @@ def harnesses(tier):
         for up in (True, False):
             hs.append(Harness(f"barrier.{n}.{'up' if up else 'down'}", h_barrier, {"n": n, "up": up}, max_paths=20000, batch=20))
         hs.append(Harness(f"asian.{n}", h_asian, {"n": n}, max_paths=2000))
+        for offset in (False, True):
+            hs.append(Harness(f"asian.column.{n}.{int(offset)}", h_asian_column, {"n": n, "offset": offset}, max_paths=2000))
         hs.append(Harness(f"default.{n}", h_default_time, {"n": n}, max_paths=4000, batch=20))
         hs.append(Harness(f"nth.{n}", h_nth_default, {"n": n}, max_paths=20000, batch=20))
     for bt in ("UP_AND_IN", "UP_AND_OUT", "DOWN_AND_IN", "DOWN_AND_OUT"):
